@@ -140,3 +140,6 @@ func LiveLibThreads() int { return 0 }
 func SetMapOrderDesc(desc bool) {}
 
 func Notes(r ExecResult) []string { return nil }
+
+// Reset is a no-op on the pristine build (no introspection file).
+func Reset() {}
